@@ -3,6 +3,7 @@ package an
 import (
 	"fmt"
 	"go/types"
+	"regexp"
 	"sort"
 	"strings"
 
@@ -173,6 +174,50 @@ func c04Immediate(w *World, b *Backend, r *Result) {
 				txt, _ := flattenPUA(v)
 				if strings.Contains(txt, "$(") || strings.Contains(txt, "`") || (b.Role == "batch" && strings.Contains(strings.ToLower(txt), "call ")) {
 					bad = "the returned reference contains command text (" + v.String() + "): the effect would happen where – and as often as – the value is used"
+				}
+			}
+		}
+		// a returned reference names a fresh helper, a user variable or a register read at once by
+		// the driver – never a fixed scratch variable that other methods or helper routines
+		// assign as well: a later evaluation in the same statement would overwrite it before use
+		if bad == "" {
+			for _, t := range ts {
+				vs, _ := t.Expand(64)
+				for _, v := range vs {
+					txt, parts := flattenPUA(v)
+					if len(parts) > 0 {
+						continue // the name contains a counter / user name
+					}
+					var nm string
+					if m := regexp.MustCompile(`^\$\{([A-Za-z_][A-Za-z0-9_]*)\}$`).FindStringSubmatch(txt); m != nil && b.Role == "bash" {
+						nm = m[1]
+					}
+					if m := regexp.MustCompile(`^!([A-Za-z_][A-Za-z0-9_]*)!$`).FindStringSubmatch(txt); m != nil && b.Role == "batch" {
+						nm = m[1]
+					}
+					if nm == "" {
+						continue
+					}
+					// who else assigns it?
+					var others []string
+					for _, l := range b.Lines {
+						if lineKey(l) == name {
+							continue
+						}
+						lt, _ := flattenPUA(l.Variant)
+						assigned := false
+						if b.Role == "bash" {
+							assigned = regexp.MustCompile(`(?:^|[ ;(])` + regexp.QuoteMeta(nm) + `=`).MatchString(lt)
+						} else {
+							assigned = regexp.MustCompile(`(?i)set (?:/[ap] )?"?` + regexp.QuoteMeta(nm) + `=`).MatchString(lt)
+						}
+						if assigned {
+							others = append(others, lineKey(l))
+						}
+					}
+					if len(others) > 0 {
+						bad = fmt.Sprintf("the method hands back a reference to the shared scratch variable %s, which %v assign as well: a second evaluation in the same statement (n := copy(a, b) + len(c)) overwrites the first result before it is used", nm, uniq(others))
+					}
 				}
 			}
 		}
